@@ -6,10 +6,11 @@ use crate::kernel::report::{Ctx, PropertyMeta, Stats, Tier};
 pub mod gamma;
 pub mod memo;
 pub mod stream;
+pub mod wire04;
 
-pub const CLAIMED: [&str; 4] = ["C01", "C03", "C05", "C09"];
+pub const CLAIMED: [&str; 5] = ["C01", "C03", "C04", "C05", "C09"];
 
-static META: [PropertyMeta; 4] = [
+static META: [PropertyMeta; 5] = [
     PropertyMeta {
         id: "C01",
         level: "exploration",
@@ -37,6 +38,20 @@ static META: [PropertyMeta; 4] = [
         ],
         real_components: &["candid::ser", "candid::types::value (annotate_type, idl_serialize of IDLValue)", "candid_derive", "thread-local type memo"],
         stub_components: &["io::Write -> SimWriter (short write, EINTR, write-zero, hard error at offset)", "scheduler"],
+    },
+    PropertyMeta {
+        id: "C04",
+        level: "exploration",
+        engine: "wire-sim",
+        rule: "a run = one generated environment, one service lineage of up to 7 candidate versions produced by random upgrade steps (add/drop optional field, add required field in results, add/drop variant case under opt, int->nat in results, nat->int / wrap in opt / to reserved in arguments, function/service reference signatures, append optional argument/result, add method, deliberately unrelated rewrites), each deployed only if the real checker accepts it (type-level subtype, or service_compatible on harness-printed text), 1-4 clients pinned to the version current when they joined, 2-10 calls and their replies travelling with seeded delays on a discrete-event network (so that they are delivered after later upgrades), duplicated calls, relays holding an intermediate version, plus 2-8 native pairings (value of Rust type S decoded at Rust type R when the checker accepts S <: R, host-limited receivers excluded). distinct = distinct (multiset of upgrade-step kinds between sender and receiver version, direction/method) and distinct native (sender, receiver) pairs. non-trivial = a message was delivered across at least one upgrade, or a native pairing of two different types was accepted.",
+        assumptions: &[
+            "decode success is demanded only for (sender type, receiver type) pairs the real checker accepts directly at delivery time; pairs several upgrades apart that it does not accept are counted, not judged (transitivity is C05)",
+            "the oracle is deliberately weak: decoding succeeds, the result is of the receiver's type (own typing judgement), relayed values are coherent per the spec's ~ relation; equality with spec coercion would be C02",
+            "native receivers with host limits (u128/i128, [T;N], BoundedVec, Duration, PathBuf) only receive from the same Rust type",
+            "values are generated by the harness as inhabitants of the sender's type and encoded by the real typed-untyped encoder",
+        ],
+        real_components: &["candid::types::subtype (the deployment gate)", "candid_parser::utils::service_compatible + parser + type checker (text gate)", "candid::de via IDLArgs::from_bytes_with_types and native decode_one", "candid::ser via to_bytes_with_types / encode_one"],
+        stub_components: &["network: discrete-event queue with seeded delays, duplication (SimNet)", "parties: clients, service versions and relays are harness objects holding versions of the interface"],
     },
     PropertyMeta {
         id: "C05",
@@ -83,6 +98,10 @@ macro_rules! dispatch {
         match $prop {
             "C01" | "C03" => {
                 use memo as $m;
+                $body
+            }
+            "C04" => {
+                use wire04 as $m;
                 $body
             }
             "C05" => {
